@@ -226,6 +226,18 @@ def L(cid: int):  # noqa: N802
         f"class DA{u}(SupBase):\n    pass\n\n\ndef mkda{u}() -> SupBase:\n    made = SupBase()\n    return made\n",
         {"classes": {f"DA{u}": {"superclasses": ["vpkg.support.SupBase"]}}, "dontcare_prefixes": [f"mkda{u}"]},
     )
+    # an enum whose FIRST base is a data type or a mixin; Enum itself comes second
+    letters["enum_mixin_first"] = (
+        f"class LM{u}:\n    def label(self) -> str:\n        return ''\n\n\nclass SM{u}(str, Enum):\n    RED = 'r'\n    _INT = 'i'\n\n\nclass ML{u}(LM{u}, Enum):\n    ONE = 1\n",
+        merge({"classes": {f"LM{u}": {"methods": [f"LM{u}/label"]}}, "enums": {f"SM{u}": {"instances": [f"SM{u}/RED", f"SM{u}/_INT"]}, f"ML{u}": {"instances": [f"ML{u}/ONE"]}},
+               "enum_instances": [f"SM{u}/RED", f"SM{u}/_INT", f"ML{u}/ONE"]}, fn(f"LM{u}/label", ["self"])),
+    )
+    # a dataclass with __post_init__: the type checker adds a placeholder next to the generated constructor
+    letters["dataclass_post_init"] = (
+        f"@dataclass\nclass DP{u}:\n    a: int\n    b: int = field(init=False)\n\n    def __post_init__(self) -> None:\n        self.b = self.a\n",
+        merge({"classes": {f"DP{u}": {"has_ctor": True, "methods": [f"DP{u}/__post_init__"], "attributes": [f"DP{u}/a", f"DP{u}/b"]}}, "attributes": [f"DP{u}/a", f"DP{u}/b"]},
+              fn(f"DP{u}/__init__", ["self", "a"], 0), fn(f"DP{u}/__post_init__", ["self"], 1)),
+    )
     letters["enum_kinds"] = (
         f"class FL{u}(Flag):\n    X = auto()\n\n\nclass SE{u}(StrEnum):\n    A = 'a'\n\n\nclass EB{u}(Enum):\n    pass\n\n\nclass ED{u}(EB{u}):\n    Y = 1\n",
         {"enums": {f"FL{u}": {"instances": [f"FL{u}/X"]}, f"SE{u}": {"instances": [f"SE{u}/A"]}, f"EB{u}": {"instances": []}, f"ED{u}": {"instances": [f"ED{u}/Y"]}},
@@ -258,7 +270,7 @@ def L(cid: int):  # noqa: N802
     return letters
 
 
-HEADER = "import collections\nimport functools\nfrom enum import Enum, Flag, IntEnum, StrEnum, auto\nfrom typing import Generic, TypeVar, overload\n\nfrom vpkg import support\nfrom vpkg.support2 import SupBase as OtherSupBase\nfrom vpkg.support import SupBase\nfrom vpkg.support import SupBase2 as AliasedBase\n\nT = TypeVar('T')\n\n\n"
+HEADER = "import collections\nimport functools\nfrom dataclasses import dataclass, field\nfrom enum import Enum, Flag, IntEnum, StrEnum, auto\nfrom typing import Generic, TypeVar, overload\n\nfrom vpkg import support\nfrom vpkg.support2 import SupBase as OtherSupBase\nfrom vpkg.support import SupBase\nfrom vpkg.support import SupBase2 as AliasedBase\n\nT = TypeVar('T')\n\n\n"
 SUPPORT2 = "class SupBase:\n    def other(self) -> int:\n        return 1\n"
 SUPPORT = "class SupBase:\n    pass\n\n\nclass SupBase2:\n    pass\n\n\nclass SupOther:\n    pass\n"
 LETTER_NAMES = list(L(0))
